@@ -156,6 +156,25 @@ class C06Bounded(Bounded):
                     fail("document-from-file", f"rule {r.title!r} loaded from a file: dict form differs after reload in {diff}: {[(dfile.get(k), dplain.get(k)) for k in diff][:2]}", ["file", r.title])
         finally:
             shutil.rmtree(tmpd, ignore_errors=True)
+        # --- filtered rules: a rule a filter was applied to is written with the filter's detections AND the narrowed condition
+        from .c12_bounded import equivalent as _equiv
+        for fi, (rdoc, fdoc) in enumerate([({"title": "r", "name": "r", "logsource": {"category": "c"}, "detection": {"sel": {"f": "a"}, "flt": {"g": "b"}, "condition": ["sel and not flt", "sel"]}},
+                                            {"title": "F", "logsource": {"category": "c"}, "filter": {"rules": ["r"], "adm": {"User|startswith": "adm"}, "condition": "not adm"}}),
+                                           ({"title": "r", "name": "r", "logsource": {"category": "c", "product": "p"}, "detection": {"s1": {"f": "a"}, "s2": {"f": "b"}, "condition": "1 of s*"}},
+                                            {"title": "F", "logsource": {"category": "c"}, "filter": {"rules": "any", "x": {"u": 1}, "y": {"v": 2}, "condition": "not 1 of them"}})]):
+            ev += 1
+            nontriv += 1
+            try:
+                col = SigmaCollection.from_dicts([copy.deepcopy(rdoc), copy.deepcopy(fdoc)])
+                q0 = TextQueryTestBackend().convert(col)
+                d1 = col.rules[0].to_dict()
+                q1 = TextQueryTestBackend().convert_rule(SigmaRule.from_dict(copy.deepcopy(d1)))
+                q2 = TextQueryTestBackend().convert_rule(SigmaRule.from_yaml(yaml.safe_dump(norm(d1))))
+            except Exception as e:
+                fail("filtered-rule", f"filtered rule {fi}: round trip raises {type(e).__name__}: {e}", ["filtered", fi])
+                continue
+            if not (len(q0) == len(q1) == len(q2) and all(_equiv(str(a), str(b)) and _equiv(str(a), str(c)) for a, b, c in zip(q0, q1, q2))):
+                fail("filtered-rule", f"filtered rule {fi} converts to {q0}; written with to_dict() ({d1.get('detection', {}).get('condition')}) and loaded again it converts to {q1} / {q2}", ["filtered", fi])
         # --- after a single transformation: fails with a Sigma error, or reloads to the same queries
         transformations = [{"type": "field_name_mapping", "mapping": {"f": "g"}}, {"type": "field_name_mapping", "mapping": {"f": ["g", "h"]}}, {"type": "field_name_prefix", "prefix": "p."},
                            {"type": "field_name_suffix", "suffix": ".s"}, {"type": "drop_detection_item", "field_name_conditions": [{"type": "include_fields", "fields": ["g2"]}]},
@@ -165,7 +184,8 @@ class C06Bounded(Bounded):
         rule_docs = [{"title": "t", "logsource": {"category": "c"}, "detection": {"sel": {"f": "a", "g2|contains": ["a", "b"]}, "kw": ["a"], "condition": "sel or kw"}},
                      {"title": "t", "logsource": {"category": "c"}, "detection": {"sel": {"f|fieldref": "f", "f2|expand": "%a%"}, "condition": "sel"}},
                      {"title": "t", "logsource": {"category": "c"}, "detection": {"sel": {"x|fieldref": "f", "y|fieldref|startswith": "f"}, "condition": "sel"}},
-                     {"title": "t", "logsource": {"category": "c"}, "detection": {"sel": {"Hashes|contains": "MD5=0123"}, "lst": [{"f": 1}, {"f|re": "a+"}], "condition": "sel or lst"}}]
+                     {"title": "t", "logsource": {"category": "c"}, "detection": {"sel": {"Hashes|contains": "MD5=0123"}, "lst": [{"f": 1}, {"f|re": "a+"}], "condition": "sel or lst"}},
+                     {"title": "t", "logsource": {"category": "c"}, "detection": {"sel": {"f|windash|contains": "-a", "g|base64offset|contains": "xy", "h|wide|base64": "z"}, "num": {"f": [1, 2]}, "condition": "sel and num"}}]
         import json
         kfile = os.path.join(VERIF, "known", "c06_after_transformation.json")
         KNOWN_T = set(tuple(x) for x in json.load(open(kfile))) if os.path.exists(kfile) else set()
@@ -238,5 +258,5 @@ class C06Bounded(Bounded):
         if os.environ.get("C06_DUMP"):
             json.dump(failing_t, open(os.environ["C06_DUMP"], "w"))
         return {"evaluations": ev, "distinct_nontrivial": nontriv, "failures": fails, "failure_counts": seen,
-                "bound": f"{len(keys)} field/modifier keys x {len(values)} values (+ type-specific values) ; 12 whole documents (rule in both date spellings, 9 correlation rules over all condition shapes incl. zero thresholds, extended conditions, aliases, generate; filter), correlation / filter documents also compared by their converted queries; {len(transformations)} transformations x {len(rule_docs)} rules; 252 detections whose fields a, b, c (plain / all / contains, single / list values) are folded onto one field name",
+                "bound": f"{len(keys)} field/modifier keys x {len(values)} values (+ type-specific values) ; 12 whole documents (rule in both date spellings, 9 correlation rules over all condition shapes incl. zero thresholds, extended conditions, aliases, generate; filter), correlation / filter documents also compared by their converted queries; {len(transformations)} transformations x {len(rule_docs)} rules; 2 filtered rules; 252 detections whose fields a, b, c (plain / all / contains, single / list values) are folded onto one field name",
                 "rule": "distinct documents; non-trivial = loadable", "samples": samples, "exhaustive": True}
